@@ -51,7 +51,7 @@ C13(w) ==
       origin == c.n
       tAccept == Min0({users[i].t : i \in {j \in Idx(users) : users[j].src = origin /\ users[j].acked}})
       delivered == \E i \in Idx(users) : HdrOf(users[i]).to = c.to /\ NodeAt(c.to) # {} /\ RxBy(users[i], NameAt(c.to))
-      arrivals == {acks[i].t : i \in {j \in Idx(acks) : RxBy(acks[j], origin)}}
+      arrivals == {acks[i].t : i \in {j \in Idx(acks) : RxBy(acks[j], origin) /\ HdrOf(acks[j]).to = c.src}}   \* addressed to the sender
       rt == c.route_timeout * 1000  tt == c.tx_timeout * 1000 IN
   IF w.ret.exc # "none" THEN <<"C13.Bounded", "write() raised " \o w.ret.exc>>
   ELSE IF ~need /\ acks # <<>> THEN <<"C13.NeverOtherwise", "NETWORK_ACK on air for a frame that must not cause one">>
@@ -66,6 +66,15 @@ C13(w) ==
   ELSE IF ~need /\ tAccept >= 0 /\ w.ret.t - tAccept > 6000 THEN <<"C13.WaitOnlyIfNeeded", "blocked after the first hop had accepted a frame that needs no NETWORK_ACK">>
   ELSE IF need /\ ~w.ret.res /\ tAccept >= 0 /\ w.ret.t - tAccept < rt - 3000 THEN <<"C13.WaitOnlyIfNeeded", "gave up before route_timeout">>
   ELSE IF w.ret.dt > 2 * tt + rt + 60000 THEN <<"C13.Bounded", ToString(w.ret.dt) \o " us">>
+  ELSE OK
+
+\* with cross traffic (another ack-type message in flight through the sender) only the result / arrival relation is judged
+C13x(w) ==
+  LET c == w.call  acks == NetAcks(w.pkts)
+      arrivals == {acks[i].t : i \in {j \in Idx(acks) : RxBy(acks[j], c.n) /\ HdrOf(acks[j]).to = c.src}} IN
+  IF w.ret.exc # "none" THEN <<"C13.Bounded", "write() raised " \o w.ret.exc>>
+  ELSE IF w.ret.res /\ ~(\E t \in arrivals : t <= w.ret.t) THEN <<"C13.TrueOnlyIfArrived", "True although no NETWORK_ACK addressed to the sender reached it">>
+  ELSE IF w.ret.dt > 2 * c.tx_timeout * 1000 + c.route_timeout * 1000 + 60000 THEN <<"C13.Bounded", ToString(w.ret.dt) \o " us">>
   ELSE OK
 
 \* ---- C14: multicast
@@ -103,10 +112,11 @@ C14(w) ==
 Crash(w) == IF Len(w.bad) > 0 THEN <<"C15.NoRaise", w.bad[1].k \o " on " \o w.bad[1].n \o ": " \o w.bad[1].what>> ELSE OK
 
 Families(w) == {w.call.chk[i] : i \in Idx(w.call.chk)}
-Verdicts(w) == <<Crash(w)>>
+Verdicts(w) == (IF Families(w) = {} THEN <<>> ELSE <<Crash(w)>>)
                \o (IF "C07" \in Families(w) THEN <<C07(w)>> ELSE <<>>)
                \o (IF "C05" \in Families(w) THEN <<C05(w)>> ELSE <<>>)
                \o (IF "C13" \in Families(w) THEN <<C13(w)>> ELSE <<>>)
+               \o (IF "C13x" \in Families(w) THEN <<C13x(w)>> ELSE <<>>)
                \o (IF "C14" \in Families(w) THEN <<C14(w)>> ELSE <<>>)
 Failing(w) == SelectSeq(Verdicts(w), LAMBDA v : v[1] # "ok")
 
